@@ -420,18 +420,17 @@ theorem fanoutAll_eq (cap : Nat) (ms : List Msg) : ∀ (cs : List Chan),
 
 
 def Located (s : RaceSt) (m : Nat) : Prop :=
-  m ∈ s.topicMem ∨ m ∈ s.topicDisk ∨ m ∈ s.chanMem ∨ m ∈ s.chanDisk ∨ m ∈ s.inflight ∨ m ∈ s.pumpHolds ∨
-    m ∈ s.scanHolds
+  m ∈ s.topicMem ∨ m ∈ s.topicDisk ∨ m ∈ s.chanMem ∨ m ∈ s.chanDisk ∨ m ∈ s.inflight ∨ m ∈ s.deferred ∨
+    m ∈ s.pumpHolds ∨ m ∈ s.scanHolds ∨ m ∈ s.ansHolds ∨ m ∈ s.finished
 
-/-- the scan holds the exit lock (model parameter, tied to the tree); every acknowledged message is
-somewhere (FIN is not part of this model); once the channel has closed no scan holds a message -/
+/-- invariant of every tree whose scans hold the exit lock (model parameter, tied to the tree): until the
+channel closes every acknowledged message is somewhere; once the channel has closed no scan holds a message -/
 def RaceInv (s : RaceSt) : Prop :=
-  s.scanLock = true ∧ (∀ m ∈ s.acked, Located s m) ∧ (s.chanClosed = true → s.scanHolds = [])
+  s.scanLock = true ∧ (s.chanClosed = false → ∀ m ∈ s.acked, Located s m) ∧ (s.chanClosed = true → s.scanHolds = [])
 
-theorem raceInv_init : RaceInv {} := by
-  refine ⟨rfl, ?_, ?_⟩
-  · intro m hm; cases hm
-  · intro h; cases h
+theorem raceInv_init (s0 : RaceSt) (h : s0.scanLock = true) (ha : s0.acked = []) (hs : s0.scanHolds = []) : RaceInv s0 := by
+  refine ⟨h, ?_, fun _ => hs⟩
+  intro _ m hm; rw [ha] at hm; cases hm
 
 theorem mem_erase_or {l : List Nat} {x m : Nat} (h : x ∈ l) : x = m ∨ x ∈ l.erase m := by
   by_cases hx : x = m
@@ -440,132 +439,8 @@ theorem mem_erase_or {l : List Nat} {x m : Nat} (h : x ∈ l) : x = m ∨ x ∈ 
 
 theorem raceInv_step (s s' : RaceSt) (a : RaceStep) (h : RaceInv s) (hs : raceStep s a = some s') : RaceInv s' := by
   obtain ⟨hlock, hL, hS⟩ := h
-  cases a with
-  | pubCheck m =>
-    simp only [raceStep] at hs
-    split at hs <;> (cases hs; exact ⟨hlock, hL, hS⟩)
-  | pubSend m =>
-    simp only [raceStep] at hs
-    split at hs
-    · split at hs
-      · cases hs
-        refine ⟨hlock, ?_, hS⟩
-        intro x hx
-        simp only [List.mem_cons] at hx
-        unfold Located; simp only [List.mem_append, List.mem_singleton]
-        rcases hx with hx | hx
-        · simp [hx]
-        · rcases hL x hx with h1 | h1 | h1 | h1 | h1 | h1 | h1 <;> simp [h1]
-      · split at hs
-        · cases hs; exact ⟨hlock, hL, hS⟩
-        · cases hs
-          refine ⟨hlock, ?_, hS⟩
-          intro x hx
-          simp only [List.mem_cons] at hx
-          unfold Located; simp only [List.mem_append, List.mem_singleton]
-          rcases hx with hx | hx
-          · simp [hx]
-          · rcases hL x hx with h1 | h1 | h1 | h1 | h1 | h1 | h1 <;> simp [h1]
-    · cases hs
-  | fanout =>
-    simp only [raceStep] at hs
-    split at hs
-    · cases hs
-    · split at hs
-      · cases hs
-      · rename_i m rest hm
-        split at hs <;> cases hs <;> refine ⟨hlock, ?_, hS⟩ <;> intro x hx <;>
-          (unfold Located; simp only [List.mem_append, List.mem_singleton]) <;>
-          rcases hL x hx with h1 | h1 | h1 | h1 | h1 | h1 | h1
-        all_goals first
-          | (rw [hm] at h1; simp only [List.mem_cons] at h1; rcases h1 with h1 | h1 <;> simp [h1]; done)
-          | (simp [h1]; done)
-  | pumpRecv =>
-    simp only [raceStep] at hs
-    split at hs
-    · cases hs
-    · rename_i m rest hm
-      cases hs
-      refine ⟨hlock, ?_, hS⟩
-      intro x hx
-      unfold Located
-      rcases hL x hx with h1 | h1 | h1 | h1 | h1 | h1 | h1
-      all_goals first
-        | (rw [hm] at h1; simp only [List.mem_cons] at h1; rcases h1 with h1 | h1 <;> simp [h1]; done)
-        | (simp [h1]; done)
-  | pumpRegister m =>
-    simp only [raceStep] at hs
-    split at hs
-    · cases hs
-      refine ⟨hlock, ?_, hS⟩
-      intro x hx
-      unfold Located
-      rcases hL x hx with h1 | h1 | h1 | h1 | h1 | h1 | h1
-      all_goals first
-        | (simp [h1]; done)
-        | (rcases mem_erase_or (m := m) h1 with h2 | h2 <;> simp [h2]; done)
-    · cases hs
-  | scanTake m =>
-    simp only [raceStep] at hs
-    split at hs
-    · cases hs
-    · rename_i hopen
-      split at hs
-      · cases hs
-        refine ⟨hlock, ?_, ?_⟩
-        · intro x hx
-          unfold Located
-          rcases hL x hx with h1 | h1 | h1 | h1 | h1 | h1 | h1
-          all_goals first
-            | (simp [h1]; done)
-            | (rcases mem_erase_or (m := m) h1 with h2 | h2 <;> simp [h2]; done)
-        · intro hc
-          exact absurd hc hopen
-      · cases hs
-  | scanPut m =>
-    simp only [raceStep] at hs
-    split at hs
-    · rename_i hm
-      split at hs
-      · rename_i hc
-        rw [hS hc] at hm
-        cases hm
-      · rename_i hc
-        split at hs <;> cases hs <;> refine ⟨hlock, ?_, fun hcl => absurd hcl hc⟩ <;> intro x hx <;>
-          (unfold Located; simp only [List.mem_append, List.mem_singleton]) <;>
-          rcases hL x hx with h1 | h1 | h1 | h1 | h1 | h1 | h1
-        all_goals first
-          | (simp [h1]; done)
-          | (rcases mem_erase_or (m := m) h1 with h2 | h2 <;> simp [h2]; done)
-    · cases hs
-  | exitFlag =>
-    simp only [raceStep] at hs
-    split at hs
-    · cases hs
-    · cases hs; exact ⟨hlock, hL, hS⟩
-  | exitChan =>
-    simp only [raceStep] at hs
-    split at hs
-    · cases hs
-    · rename_i hfree
-      have hempty : s.scanHolds = [] := by
-        simpa [hlock] using hfree
-      split at hs
-      · cases hs
-        refine ⟨hlock, ?_, fun _ => hempty⟩
-        intro x hx
-        unfold Located; simp only [List.mem_append]
-        rcases hL x hx with h1 | h1 | h1 | h1 | h1 | h1 | h1 <;> simp [h1]
-      · cases hs
-  | exitTopicFlush =>
-    simp only [raceStep] at hs
-    split at hs
-    · cases hs
-      refine ⟨hlock, ?_, hS⟩
-      intro x hx
-      unfold Located; simp only [List.mem_append]
-      rcases hL x hx with h1 | h1 | h1 | h1 | h1 | h1 | h1 <;> simp [h1]
-    · cases hs
+  cases a <;> simp only [raceStep] at hs <;> (repeat' split at hs) <;> (try cases hs) <;>
+    (refine ⟨?_, ?_, ?_⟩ <;> (try intro hc x hx) <;> (try unfold Located at *) <;> grind [mem_erase_or])
 
 theorem raceInv_run : ∀ (sched : List RaceStep) (s s' : RaceSt), RaceInv s → raceRun s sched = some s' → RaceInv s' := by
   intro sched
@@ -578,6 +453,79 @@ theorem raceInv_run : ∀ (sched : List RaceStep) (s s' : RaceSt), RaceInv s →
     · cases hs
     · rename_i s1 h1
       exact ih s1 s' (raceInv_step s s1 a h h1) hs
+
+/-! #### the tree with both repairs (F17 topic-exit barrier, F18 answers hold the exit lock) -/
+
+/-- where an acknowledged message may be, taking into account which containers are still going to be
+flushed: a container of a closed channel / topic does not count -/
+def Safe (s : RaceSt) (m : Nat) : Prop :=
+  m ∈ s.topicDisk ∨ m ∈ s.chanDisk ∨ m ∈ s.finished ∨ m ∈ s.lateReg ∨ m ∈ s.pumpHolds ∨
+  (s.topicClosed = false ∧ m ∈ s.topicMem) ∨
+  (s.chanClosed = false ∧ (m ∈ s.chanMem ∨ m ∈ s.inflight ∨ m ∈ s.deferred ∨ m ∈ s.scanHolds ∨ m ∈ s.ansHolds))
+
+structure FixedInv (s : RaceSt) : Prop where
+  scan : s.scanLock = true
+  ans : s.ansLock = true
+  bar : s.topicBarrier = true
+  safe : ∀ m ∈ s.acked, Safe s m
+  /-- the barrier: once the flag is set no publisher is between test and write -/
+  pend : s.topicExiting = true → s.putPending = []
+  ce : s.chanClosed = true → s.topicExiting = true
+  tc : s.topicClosed = true → s.chanClosed = true
+
+theorem fixedInv_init : FixedInv fixedTree where
+  scan := rfl
+  ans := rfl
+  bar := rfl
+  safe := by intro m hm; cases hm
+  pend := fun _ => rfl
+  ce := by intro h; cases h
+  tc := by intro h; cases h
+
+theorem fixedInv_step (s s' : RaceSt) (a : RaceStep) (h : FixedInv s) (hs : raceStep s a = some s') : FixedInv s' := by
+  obtain ⟨h1, h2, h3, hS, hP, hC, hT⟩ := h
+  cases a <;> simp only [raceStep] at hs <;> (repeat' split at hs) <;> (try cases hs) <;>
+    (constructor <;> (try intro x hx) <;> (try unfold Safe at *) <;> grind [mem_erase_or])
+
+theorem fixedInv_run : ∀ (sched : List RaceStep) (s s' : RaceSt), FixedInv s → raceRun s sched = some s' → FixedInv s' := by
+  intro sched
+  induction sched with
+  | nil => intro s s' h hs; cases hs; exact h
+  | cons a as ih =>
+    intro s s' h hs
+    simp only [raceRun] at hs
+    split at hs
+    · cases hs
+    · rename_i s1 h1
+      exact ih s1 s' (fixedInv_step s s1 a h h1) hs
+
+/-! #### the topic side alone: any tree with the barrier (whatever the two channel-side parameters) -/
+
+structure BarrierInv (s : RaceSt) : Prop where
+  bar : s.topicBarrier = true
+  /-- an acknowledged message is on the topic's disk queue, has been handed to the channel, or waits in
+  the memory queue of a topic that is still going to be flushed -/
+  safe : ∀ m ∈ s.acked, m ∈ s.topicDisk ∨ m ∈ s.fanned ∨ (s.topicClosed = false ∧ m ∈ s.topicMem)
+  pend : s.topicExiting = true → s.putPending = []
+  ce : s.chanClosed = true → s.topicExiting = true
+  tc : s.topicClosed = true → s.chanClosed = true
+
+theorem barrierInv_step (s s' : RaceSt) (a : RaceStep) (h : BarrierInv s) (hs : raceStep s a = some s') : BarrierInv s' := by
+  obtain ⟨h3, hS, hP, hC, hT⟩ := h
+  cases a <;> simp only [raceStep] at hs <;> (repeat' split at hs) <;> (try cases hs) <;>
+    (constructor <;> (try intro x hx) <;> grind [mem_erase_or])
+
+theorem barrierInv_run : ∀ (sched : List RaceStep) (s s' : RaceSt), BarrierInv s → raceRun s sched = some s' → BarrierInv s' := by
+  intro sched
+  induction sched with
+  | nil => intro s s' h hs; cases hs; exact h
+  | cons a as ih =>
+    intro s s' h hs
+    simp only [raceRun] at hs
+    split at hs
+    · cases hs
+    · rename_i s1 h1
+      exact ih s1 s' (barrierInv_step s s1 a h h1) hs
 
 theorem persisted_reload (cap : Nat) (p : Persist) : persisted (reload cap p) = p.metadata := by
   unfold persisted reload
